@@ -22,7 +22,7 @@ from fractions import Fraction as F
 
 import z3
 
-SRC = "/repo/src/shapepy"
+SRC = os.path.join(os.environ.get("SHAPEPY_SRC", "/repo/src"), "shapepy")
 MUT = {"invert", "move", "scale", "rotate"}  # not region preserving
 INPLACE_API = {"move", "scale", "rotate", "invert", "split", "clean", "__iadd__", "__isub__", "__imul__", "__itruediv__", "__split_segment", "segments", "ctrlpoints", "subshapes",
                "__set_jordancurve", "__init__", "__new__"}
